@@ -25,7 +25,11 @@ def correspondence(ctx):
     st["horizons"] = "0..{}".format(H)
     st["grid_histogram"] = rules_check.histogram(cases)
     st["sample"] = {"program": tl.render_prog(cases[-1])}
-    return st, dis
+    # the look-ahead depth and the future predicates come from TermTransformer.__get_param: compare it with `addTime`
+    import term_check
+    tst, tdis = term_check.run(ctx.seed * 23 + 9, 100 if ctx.tier == "quick" else 1500, tl.LeanExe("telmodel"))
+    st["terms"] = tst
+    return st, dis + tdis
 
 def search(ctx, deep):
     n = (150 if ctx.tier == "quick" else 2500) * (3 if deep else 1)
